@@ -69,6 +69,31 @@ def gen_generator_history(rng, tier):
     return {"prog": "genctx", "ops": ops, "relax_inflight": True}
 
 
+def gen_mid_call(rng):
+    """A probe is activated -- or deactivated -- from inside a call of a function that another probe
+    instruments (a subscriber, or the function itself, does it).  When that call has returned the
+    probe is active (resp. gone) like any other: it hears of the calls that follow, exactly once."""
+    f = rng.choice(FNS)
+    g = rng.choice(FNS)
+    one = lambda fn, v: {"levels": [{"fn": fn, "caps": [], "sibs": []}], "focus": {"var": v, "as": v}}
+    ops = [{"op": "mk", "id": "p0", "sels": [one(f, rng.choice(local_vars(f)))], "inv": "C05.exactly_once", "kind": "probe"},
+           {"op": "mk", "id": "p1", "sels": [one(g, rng.choice(local_vars(g)))], "inv": "C05.exactly_once", "kind": "probe"},
+           {"op": "enter", "id": "p0"}]
+    pc = 0.8
+    call = lambda fn: {"op": "call", "fn": fn, "nargs": 1, "tape": tree_tape(rng, rng.randint(4, 16), {f, g}, pc, 0.0), "faults": {}}
+    mode = rng.choice(["enter", "enter", "exit"])
+    if mode == "enter":
+        c = call(f)
+        c["during"] = {"at": rng.randint(0, 5), "ops": [{"op": "enter", "id": "p1"}]}
+        ops += [c, call(g), call(f), call("S"), {"op": "exit", "id": "p1"}, call(g), {"op": "exit", "id": "p0"}, call(f)]
+    else:
+        ops += [{"op": "enter", "id": "p1"}, call(g)]
+        c = call(f)
+        c["during"] = {"at": rng.randint(0, 5), "ops": [{"op": "exit", "id": "p1"}]}
+        ops += [c, call(g), call(f), {"op": "exit", "id": "p0"}, call(g), call(f)]
+    return {"prog": "calltree", "ops": ops}
+
+
 def gen_twin_closures(rng):
     """Two function objects made by one factory (they share a code object), probed with the same
     captures at overlapping times: each probe hears of its own function only, exactly once."""
@@ -91,6 +116,8 @@ def gen(rng, tier, quarantine=()):
         return gen_generator_history(rng, tier)
     if "no-twin-closures" not in quarantine and rng.random() < 0.05:
         return gen_twin_closures(rng)
+    if "no-change-in-mid-call" not in quarantine and rng.random() < 0.06:
+        return gen_mid_call(rng)
     fns = rng.sample(FNS, rng.choice([1, 2, 2, 3]))
     nprobes = rng.randint(2, 4)
     kinds = {}
